@@ -52,6 +52,8 @@ def random_case(rng, max_vars=4, max_terms=2, max_prods=7, max_body=4, vcs=None,
     if vc == "inject":
         perm = list(range(8))
         rng.shuffle(perm)
+        if rng.random() < 0.2:
+            perm = [rng.randrange(2) for _ in perm]                  # different keys, equal hashes
         c["perm"] = perm
     if rng.random() < 0.5:
         c["shuffle"] = rng.randrange(1 << 30)
